@@ -25,6 +25,7 @@ HUNKISH = [
     '@@ -1,2 +1,2 @@', '@@ -0,0 +1 @@ ctx', '+added', '-removed',
     ' context', '--- a/file', '+++ b/file', '\\ No newline at end of file',
     'diff --git a/x b/x', 'index 123..456 100644', 'Binary files differ',
+    'literal 123', 'delta 7', 'GIT binary patch', '+#diffx: version=1.0',
 ]
 SPECIAL = [
     '﻿bom first', 'mid﻿bom', 'nul\x00byte', 'lone\rcr',
@@ -33,6 +34,8 @@ SPECIAL = [
     'aੁb', 'ਊ', '഍ਊ', 'ੁ　', '䄀ੁ',
     'sep line', 'nel\u0085x', 'vt\x0bx', 'ff\x0cx',
     'é', 'Жя', '中文', '{"json": 1}', '}', '..', '...',
+    'e\u0301 decomposed', '\u212b \u2126 compat', '\u1100\u1161 jamo',
+    'a\u0323\u0307 marks', '\ufb01 ligature', '\u00c5',
 ]
 MARKDOWN = [
     '```python\nprice = $5 ? `x`\n```', '```c\n#include <x>\n$ @ `\n```',
@@ -293,9 +296,15 @@ def diff_kwargs(draw):
         text = draw(texts(enc, max_lines=5))
         content = text.encode(enc)
 
-        if own in ('utf-16', 'utf-32') and draw(st.booleans()):
-            # same codec family without the BOM
-            content = text.encode(own + '-le')
+        if own in ('utf-16', 'utf-32'):
+            how = draw(st.integers(0, 3))
+
+            if how == 0:
+                # same codec family without the BOM
+                content = text.encode(own + '-le')
+            elif how == 1:
+                # the other byte order, announced by its BOM
+                content = ('\ufeff' + text).encode(own + '-be')
 
     kw['content'] = content
     _put(kw, 'diff_type', draw(st.sampled_from([ABSENT, ABSENT, 'text',
